@@ -485,3 +485,54 @@ func VfFullRTPutProvide() {
 var _ = vfRegister("VfFullRTSearchValue", VfFullRTSearchValue)
 var _ = vfRegister("VfFullRTFindProviders", VfFullRTFindProviders)
 var _ = vfRegister("VfFullRTPutProvide", VfFullRTPutProvide)
+
+// VfFullRTFindPeer (C03): the accelerated client's FindPeer fan-out with fast,
+// late and failing peers, any of which may name the target: it returns, does
+// not panic on late answers, and leaves no goroutine.
+func VfFullRTFindPeer() {
+	P := vfParam("P")
+	vfHashBits(vfParam("W"))
+	vfHashFixed()
+	d, _, snd, _, _ := vfFullRTClient(P)
+	target := peer.ID(vfHashInput("target", nil, 8))
+	ctx := context.Background()
+	named := false
+	var mu sync.Mutex
+	snd.reply = func(rctx context.Context, p peer.ID, req *dht_pb.Message) (*dht_pb.Message, error) {
+		if req.Type != dht_pb.Message_FIND_NODE {
+			return nil, errors.New("unexpected request")
+		}
+		mu.Lock()
+		fails := vfBool("peer.fails")
+		late := vfBool("peer.answersLate")
+		names := vfBool("peer.namesTheTarget")
+		mu.Unlock()
+		if fails {
+			return nil, errors.New("rpc failed")
+		}
+		if late {
+			// answers after a second, also if the request was abandoned meanwhile
+			time.Sleep(time.Second)
+		}
+		resp := dht_pb.NewMessage(dht_pb.Message_FIND_NODE, req.Key, 0)
+		if names {
+			mu.Lock()
+			named = true
+			mu.Unlock()
+			resp.CloserPeers = []*dht_pb.Message_Peer{{Id: []byte(target), Addrs: [][]byte{vfGroupAddr(5, 1).Bytes()}}}
+		}
+		return resp, nil
+	}
+	pi, err := d.FindPeer(ctx, target)
+	vfAdvance(5 * time.Second)
+	vfWaitIdle()
+	if err == nil {
+		vfAssert(pi.ID == target && named, "fullrt/findpeer-returns-the-target-only-if-somebody-named-it")
+	}
+	_ = d.ProviderManager.Close()
+	vfWaitIdle()
+	vfAssert(vfLiveGoroutines() == 1, "fullrt/findpeer-no-goroutine-left-behind")
+	vfReach("fullrt/findpeer-end")
+}
+
+var _ = vfRegister("VfFullRTFindPeer", VfFullRTFindPeer)
